@@ -134,6 +134,105 @@ def fp(name):
     return get_certificate_fingerprint(cert(name)[0])
 
 
+def run_history(steps, verify_ssl=False):
+    """ONE GeminiClient object used for a whole history of fetches / uploads / trust-store operations.
+    steps: ("get"|"upload", presented) | ("trust", cert) | ("revoke",) | ("clear",).  Returns the first clause violated, or None."""
+    d = Path(tempfile.mkdtemp(prefix="pyvc_tofu_"))
+    key = ("h.example", 1965)
+    try:
+        dbpath = d / "tofu.db"
+        state = {"accepted": False, "conn_cert": None, "t": None, "presented": None}
+
+        async def go():
+            client = GeminiClient(timeout=0.5, tofu_db_path=dbpath, verify_ssl=verify_ssl)
+            real_verify = client.tofu_db.verify
+
+            def verify(host, port, c):
+                r = real_verify(host, port, c)
+                if r[0] and state["conn_cert"] is not None and c.public_bytes(serialization.Encoding.DER) == state["conn_cert"]:
+                    state["accepted"] = True
+                return r
+            client.tofu_db.verify = verify
+            loop = asyncio.get_running_loop()
+
+            async def create_connection(factory, host=None, port=None, **kw):
+                der = cert(state["presented"])[1]
+                state["conn_cert"], state["accepted"] = der, False
+                proto = factory()
+                t = Transport(SSLObj(der), state, proto, b"20 text/gemini\r\nok\n")
+                state.pop("answered", None)
+                state["t"] = t
+                proto.connection_made(t)
+                return t, proto
+            loop.create_connection = create_connection
+            model = None
+            for i, st in enumerate(steps):
+                if st[0] == "trust":
+                    client.tofu_db.trust(key[0], key[1], cert(st[1])[0])
+                    model = fp(st[1])
+                    continue
+                if st[0] == "revoke":
+                    client.tofu_db.revoke(*key)
+                    model = None
+                    continue
+                if st[0] == "clear":
+                    client.tofu_db.clear()
+                    model = None
+                    continue
+                state["presented"] = st[1]
+                try:
+                    if st[0] == "get":
+                        r = await client._get_single("gemini://h.example/secret?q=1")
+                    else:
+                        r = await client.upload("gemini://h.example/up", b"UPLOAD-BODY", mime_type="text/plain", token="s3cret")
+                    res = ("return", r.status)
+                except CertificateChangedError as e:
+                    res = ("changed", e.old_fingerprint, e.new_fingerprint)
+                except Exception as e:  # noqa: BLE001
+                    res = ("raise", type(e).__name__, str(e)[:80])
+                t = state["t"]
+                early = [w for w, acc in t.out if not acc]
+                now = pins(dbpath).get(key)
+                here = f"step {i + 1} {st!r} of history {steps!r}"
+                bads = []
+                if early:
+                    bads.append(f"[C11] {here}: {len(early)} write(s) reached the transport before this connection's certificate passed pin verification, first: {early[0][:40]!r}")
+                if model is None or model == fp(st[1]):
+                    if res[0] != "return":
+                        bads.append(f"[C03] {here}: an acceptable certificate ended in {res!r}")
+                    elif now != fp(st[1]):
+                        bads.append(f"[C03] {here}: after a successful call the pin is {now!r}, not the presented certificate's fingerprint")
+                    model = fp(st[1])
+                else:
+                    if res[0] == "return":
+                        bads.append(f"[C03] {here}: a response was returned although the pin ({model[:18]}...) differs from the presented certificate")
+                    elif res[0] != "changed" or res[1] != model or res[2] != fp(st[1]):
+                        bads.append(f"[C03] {here}: expected CertificateChangedError(old pin, presented), got {res!r}")
+                    if now != model:
+                        bads.append(f"[C03] {here}: the pin changed although the certificate was refused")
+                    if t.out:
+                        bads.append(f"[C11] {here}: bytes were sent on a connection whose certificate was refused")
+                if bads:
+                    return bads
+            return None
+        return asyncio.run(go())
+    finally:
+        shutil.rmtree(d, ignore_errors=True)
+
+
+HISTORIES = [
+    [("get", "A"), ("get", "A"), ("get", "B")],
+    [("get", "A"), ("trust", "B"), ("get", "A")],
+    [("get", "A"), ("trust", "B"), ("upload", "A")],
+    [("get", "A"), ("revoke",), ("get", "B"), ("get", "A")],
+    [("get", "A"), ("clear",), ("upload", "B"), ("get", "B"), ("get", "A")],
+    [("upload", "A"), ("get", "B")],
+    [("get", "A"), ("upload", "B")],
+    [("trust", "B"), ("get", "A")],
+    [("get", "A"), ("get", "B"), ("get", "A"), ("trust", "B"), ("get", "B"), ("get", "A")],
+]
+
+
 def judge(op, presented, pinned, r, connect="ok"):
     bad = []
     key = ("h.example", 1965)
@@ -198,6 +297,17 @@ def bank(focus=None, ops=("get", "upload")):
                     return dict(confirmed=True, input=dict(operation=op, peer_presents=presented, pinned_before=pinned, verify_ssl=verify_ssl, url="gemini://h.example/secret?q=1"),
                                 observed=dict(violated=bad, result=repr(r["result"])[:200], writes=repr(r["writes"])[:300]),
                                 clause="with TOFU on: nothing is sent before the certificate passed pin verification; a response only for an absent/matching pin; pins change only by first-use pinning of the presented certificate")
+        if op == ops[0]:
+            for hist in HISTORIES:
+                for vs in (False, True):
+                    tried += 1
+                    bad = run_history(hist, verify_ssl=vs) or []
+                    if focus:
+                        bad = [b for b in bad if f"[{focus}]" in b]
+                    if bad:
+                        return dict(confirmed=True, input=dict(history=[list(x) for x in hist], verify_ssl=vs, client="one GeminiClient object for the whole history"),
+                                    observed=dict(violated=bad),
+                                    clause="over any history of fetches, uploads and trust-store operations: nothing is sent before the pin check; a pinned host is accepted only with the pinned certificate")
         for connect in ("refused", "hang"):
             tried += 1
             r = run_case(op, "A", None, connect=connect)
